@@ -218,19 +218,39 @@ def _check_format(idx, rep, sets, fmt, wname, rname, relfile):
 def check_ionq(idx, rep, sets):
     n = _check_format(idx, rep, sets, "ionq", "translate_c_to_json_ionq", "translate_c_from_json_ionq", "translate_json_ionq.py")
     rep.floor("ionq names round-tripped", n, 20)
-    # the qubit count is exported and imported
-    w = idx.function(f"{TDIR}translate_json_ionq.py::translate_c_to_json_ionq")
-    r = idx.function(f"{TDIR}translate_json_ionq.py::translate_c_from_json_ionq")
-    ok = any(isinstance(n_, ast.Dict) and any(isinstance(k, ast.Constant) and k.value == "qubits" and norm(v) == "source_circuit.width"
-                                               for k, v in zip(n_.keys, n_.values)) for n_ in own_nodes(w.node))
-    ok2 = "Circuit(n_qubits=source_circuit['qubits'])" in norm(ast.Module(body=r.node.body, type_ignores=[]))
-    rep.decide(ok and ok2, "K4.roundtrip", w, w.node, text="ionq: width exported as 'qubits' and restored",
-               what="the circuit width survives the round trip", reason="qubit count not carried through")
+    _check_width(idx, rep, sets, "ionq", "translate_c_to_json_ionq", "translate_c_from_json_ionq", "translate_json_ionq.py")
+
+
+def _check_width(idx, rep, sets, fmt, wname, rname, relfile):
+    """width clause: a circuit on a register larger than its highest used qubit (idle top qubits), and an empty circuit on a fixed register, come back with
+    the same width - both directions folded, nothing matched by spelling"""
+    rule = "K4.roundtrip"
+    writer = idx.function(f"{TDIR}{relfile}::{wname}")
+    reader = idx.function(f"{TDIR}{relfile}::{rname}")
+    for label, gates, nq in (("one gate on qubit 1 of a 4-qubit register", [sample_gate("H", sets)], 4), ("empty circuit on a 3-qubit register", [], 3)):
+        gl = [copy.deepcopy(g) for g in gates]
+        for g in gl:
+            g.fields["target"] = [1]
+        circ = CircRec(gl, n_qubits=nq)
+        try:
+            out = _fold_fn(writer, {"source_circuit": circ})
+            back = _fold_fn(reader, {reader.positional[0]: out})
+        except Raised as r:
+            rep.violation(rule, writer, r.node, text=f"{fmt}: {label}", what="the circuit width survives the round trip", reason=f"raises {r.exc_type}")
+            continue
+        except Undecidable as u:
+            raise AnalysisError(f"{fmt}: width round trip not foldable: {u}")
+        if not isinstance(back, Rec) or back.cls != "Circuit":
+            raise AnalysisError(f"{reader.ref}: folded result is not a circuit: {back!r}")
+        rep.decide(back.fields["width"] == nq and len(back.fields["_gates"]) == len(gl), rule, reader, reader.node, text=f"{fmt}: width of {label}",
+                   what="export followed by import returns a circuit of the same width (idle qubits of the register included)",
+                   reason=f"a circuit of width {nq} comes back with width {back.fields['width']}")
 
 
 def check_projectq(idx, rep, sets):
     n = _check_format(idx, rep, sets, "projectq", "translate_c_to_projectq", "translate_c_from_projectq", "translate_projectq.py")
     rep.floor("projectq names round-tripped", n, 12)
+    _check_width(idx, rep, sets, "projectq", "translate_c_to_projectq", "translate_c_from_projectq", "translate_projectq.py")
 
 
 def check_openqasm_reader(idx, rep, sets):
@@ -298,6 +318,8 @@ def check_repr(idx, rep, sets):
         Rec("Gate", {"name": "RX", "target": [0], "control": None, "parameter": 0.5, "is_variational": True}),
         Rec("Gate", {"name": "CRZ", "target": [1], "control": [0, 3], "parameter": -1.25, "is_variational": False}),
         Rec("Gate", {"name": "RY", "target": [4], "control": None, "parameter": "alpha", "is_variational": False}),
+        Rec("Gate", {"name": "RY", "target": [4], "control": None, "parameter": "it's", "is_variational": False}),
+        Rec("Gate", {"name": "RX", "target": [0], "control": None, "parameter": 'a"b\\c', "is_variational": True}),
         Rec("Gate", {"name": "CSWAP", "target": [1, 2], "control": [0], "parameter": "", "is_variational": False}),
         Rec("Gate", {"name": "X", "target": [0], "control": None, "parameter": "", "is_variational": False}),
         Rec("Gate", {"name": "RZ", "target": [1], "control": None, "parameter": 0.0, "is_variational": False}),
